@@ -410,6 +410,28 @@ def check_C10(run):
     cmds = with_group_resets(groups, 10)
     run.samples = groups[0]
     run_codec(run, 'C10', cmds)
+    # the RPC layer: a fault at every primitive of each of the four pipe ends of a call
+    ifaces = rpc_ifaces()
+    ipath = os.path.join(run.work, 'ifaces.json')
+    with open(ipath, 'w') as f:
+        json.dump(ifaces, f)
+    gen = vals.Gen(seed=run.seed, nrandom=1)
+    rcmds = []
+    for iname, I in ifaces.items():
+        for m in I["methods"]:
+            if not m["bound"]:
+                continue
+            for v in gen.values(m["args"])[:3 if thorough else 2]:
+                for on in ("reqw", "repr", "reqr", "repw"):
+                    for k in range(1, 16):
+                        for e in ((13, 16) if on in ("reqw", "repw") else (12, 14)):
+                            rcmds.append({"c": "rpc", "iface": iname,
+                                          "calls": [{"m": m["calls"][0], "args": v, "fault": {"on": on, "k": k, "e": e}}]})
+    rcmds = with_resets(rcmds, 60)
+    exe, _ = vf.get_exe(run, 'plain')
+    trace = vf.exec_commands(run, exe, rcmds, 'c10rpc')
+    rejected = vf.tlc_validate(run, 'TrRpc', 'TrCodec.cfg', trace, {"PROP": "C10", "IFACES": ipath})
+    add_rejections(run, rejected, key_rpc, index_cmds(rcmds))
     run.exhaustive = False
     return vf.finish(run, level='model_checking',
                      rule='every pool type x values x EVERY index k of the k-th primitive call of Read and of Write x every '
@@ -1041,7 +1063,7 @@ def check_C15(run):
     thorough = run.tier == 'thorough'
     rng = random.Random(run.seed)
     # (b) ownership histories of UniqueHandle
-    cmds_b = with_resets(life_cmds(run, [("uhandle", ["uhandle"])], thorough, rng), 100)
+    cmds_b = with_resets(life_cmds(run, [("uhandle", ["uhandle", "ufile"])], thorough, rng), 100)
     run_obj(run, 'C15', cmds_b, 'asan')
     # (a) handles inside values: out-of-band channel
     exe, types_path = vf.get_exe(run, 'plain')
@@ -1315,8 +1337,8 @@ def rpc_ifaces():
 
 def key_rpc(ev, why, cmd=None):
     if ev.get("e") != "RPC":
-        return abnormal_key('C14', ev, why, cmd)
-    return 'C14|RPC|%s|%s' % (ev.get("iface"), ','.join(why)), 'call sequence on interface %s violates: %s (command %s)' % (
+        return abnormal_key('RPC', ev, why, cmd)
+    return 'RPC|%s|%s' % (ev.get("iface"), ','.join(why)), 'call sequence on interface %s violates: %s (command %s)' % (
         ev.get("iface"), ', '.join(why), ev.get("idx"))
 
 
